@@ -1,4 +1,4 @@
-"""generator of M-Core-3 functions (descriptors: lean/LlirModel/Drv/Core3Ops.lean): parameters, named / numbered blocks, instructions of the 71 rows
+"""generator of M-Core-3 functions (descriptors: lean/LlirModel/Drv/Core3Ops.lean): parameters, named / numbered blocks, instructions of the 73 rows
 over locals (also forward references) and Core2 constants, LLVM numbering of the unnamed values; plus text-level mutants for the parser stream."""
 import re
 from . import gens
@@ -7,6 +7,34 @@ BINOPS = ["add", "sub", "mul", "udiv", "sdiv", "urem", "srem", "shl", "lshr", "a
 INT_TYS = ["i1", "i8", "i32", "i64", "i33", "V4(i32)", "V2(i64)", "S2(i8)"]
 PTR_TYS = ["p0(i32)", "p0(i8)", "p1(i64)", "p0(p0(i8))", "p0(V4(i32))"]
 FLOAT_TYS = ["f1", "f2", "f0", "V4(f1)", "S2(f2)"]
+AGG_TYS = ["s(i32,i8)", "a4(i8)", "s(i32,s(i8,i64))", "a2(s(i1,i32))", "P(i8,a2(i32))"]
+ALIGNS = ["", "", "1", "4", "8", "16", "4096"]
+
+
+def agg_path(rng, t):
+    """a valid index path into an aggregate type descriptor: (path, element type)"""
+    path = []
+    while True:
+        m = re.fullmatch(r"a(\d+)\((.*)\)", t)
+        if m:
+            path.append(rng.randrange(int(m.group(1)))); t = m.group(2)
+        elif re.fullmatch(r"[sP]\(.*\)", t):
+            # split the top-level fields
+            fields, depth, cur = [], 0, ""
+            for ch in t[2:-1]:
+                if ch == "," and depth == 0:
+                    fields.append(cur); cur = ""
+                else:
+                    depth += ch == "("; depth -= ch == ")"; cur += ch
+            fields.append(cur)
+            k = rng.randrange(len(fields)); path.append(k); t = fields[k]
+        else:
+            break
+        if path and rng.random() < 0.4:
+            break
+    return path, t
+
+
 VEC_TYS = ["V4(i32)", "V2(i64)", "S2(i8)", "V4(f1)", "S2(f2)", "V2(p0(i8))"]
 
 
@@ -108,8 +136,12 @@ def gen_func(rng, max_blocks=4):
                 insts.append({"row": 68, "ty": rng.choice(VEC_TYS), "ity": rng.choice(["i32", "i64"]), "res": fresh_ident(), "has": True})
             elif k < 0.9:
                 insts.append({"row": 69, "ty": rng.choice(VEC_TYS), "m": rng.choice([1, 2, 4, 8]), "res": fresh_ident(), "has": True})
-            else:
+            elif k < 0.94:
                 insts.append({"row": 70, "ty": rng.choice(INT_TYS + PTR_TYS + FLOAT_TYS + ["a4(i8)", "s(i32,i8)"]), "res": fresh_ident(), "has": True})
+            else:
+                t = rng.choice(AGG_TYS)
+                path, et = agg_path(rng, t)
+                insts.append({"row": rng.choice([71, 72]), "ty": t, "path": path, "ety": et, "res": fresh_ident(), "has": True})
         rng.shuffle(insts)
         blocks.append({"label": fresh_ident(), "insts": insts})
     # result types
@@ -129,6 +161,8 @@ def gen_func(rng, max_blocks=4):
         if r == 67: return vec_parts(t)[2]
         if r == 69: return "%s%d(%s)" % (vec_parts(t)[0], i["m"], vec_parts(t)[2])
         if r == 70: return "p0(%s)" % t
+        if r == 71: return i["ety"]
+        if r == 72: return t
         return None
     # LLVM numbering of the unnamed values
     n = 0
@@ -167,9 +201,9 @@ def gen_func(rng, max_blocks=4):
             if r < 23:
                 args = "P%s=%s!V%s" % (t, operand(t), operand(t))
             elif r == 23:
-                args = "T%s!P%s=%s" % (pointee(t), t, operand(t))
+                args = "T%s!P%s=%s!A%s" % (pointee(t), t, operand(t), rng.choice(ALIGNS))
             elif r == 24:
-                args = "P%s=%s!P%s=%s" % (pointee(t), operand(pointee(t)), t, operand(t))
+                args = "P%s=%s!P%s=%s!A%s" % (pointee(t), operand(pointee(t)), t, operand(t), rng.choice(ALIGNS))
             elif 30 <= r <= 42:
                 args = "P%s=%s!T%s" % (t, operand(t), i["to"])
             elif r == 43:
@@ -188,7 +222,11 @@ def gen_func(rng, max_blocks=4):
                 args = "P%s=%s!P%s=%s!P%s=#%s" % (t, operand(t), t, operand(t), mt, rng.choice(["z", "u"]) if mt.startswith("S") or rng.random() < 0.4 else
                                                   "V(%s)" % ",".join("i32=i%d" % rng.randrange(2 * vec_parts(t)[1]) for _ in range(i["m"])))
             elif r == 70:
-                args = "T%s" % t
+                args = "T%s!A%s" % (t, rng.choice(ALIGNS))
+            elif r == 71:
+                args = "P%s=%s!K%s" % (t, operand(t), ",".join(map(str, i["path"])))
+            elif r == 72:
+                args = "P%s=%s!P%s=%s!K%s" % (t, operand(t), i["ety"], operand(i["ety"]), ",".join(map(str, i["path"])))
             else:
                 args = "Pi1=%s!P%s=%s!P%s=%s" % (operand("i1"), t, operand(t), t, operand(t))
             parts.append("%s:%d:%s" % (i["ident"], r, args))
